@@ -25,6 +25,11 @@ type H struct {
 	// SeqFirst: the options are passed as Sequential(), Async() instead of
 	// Async(), Sequential().  The order of options is not part of the contract.
 	SeqFirst bool `json:"seq_first,omitempty"`
+	// PanicEvery > 0 (concurrent-publisher cases): the handler panics at the
+	// end of handling every event whose id is a multiple of it.  The bus
+	// contains the panic; the handler goes on receiving the other events, one
+	// at a time.
+	PanicEvery int `json:"panic_every,omitempty"`
 }
 
 // pub publishes e, through the static type any when viaAny is set (the
@@ -132,6 +137,9 @@ func subscribeSeq(bus *eventbus.EventBus, h H, st *hstate) {
 		st.seenSet.Store(id, struct{}{})
 		if !st.inside.CompareAndSwap(1, 0) {
 			st.overlap.Add(1)
+		}
+		if h.PanicEvery > 0 && id%h.PanicEvery == 0 {
+			panic(fmt.Sprintf("sequential handler %d fails on event %d", st.idx, id))
 		}
 	}
 	so := []eventbus.SubscribeOption{eventbus.Sequential()}
@@ -287,6 +295,12 @@ func runOverlap(c *OverlapCase, k *counters) *vkit.Outcome {
 	}
 	if c.relays() {
 		o.Class("handler_context_relayed_through_another_goroutine_back_to_the_handler")
+	}
+	for _, h := range c.Handlers {
+		if h.PanicEvery > 0 && total > h.PanicEvery {
+			o.Class("sequential_handler_panics_on_some_events_and_receives_more")
+			break
+		}
 	}
 	return o
 }
